@@ -861,4 +861,70 @@ Section PvssProofs.
     rewrite Forall_forall in *. intros r Hr. apply HR. apply Hincl. exact Hr.
   Qed.
 
+
+  (* ---------------------------------------------------------------- DecShareBatch *)
+
+  Definition dsb_row := (F * (F * (F * pvshare q)))%type.
+  Definition dsb_ok (H : F) (r : dsb_row) : bool :=
+    verdict_ok (verify_enc_share H (fst r) (fst (snd r)) (fst (snd (snd r))) (snd (snd (snd r)))).
+  Definition dsb_dec (H x : F) (r : dsb_row) (d : pvshare q) : Prop :=
+    exists v, dec_share Hc H (fst r) (fst (snd r)) x (fst (snd (snd r))) (snd (snd (snd r))) v = inr d.
+
+  Lemma dec_share_inr (H X sH x gc : F) e v d :
+    dec_share Hc H X sH x gc e v = inr d -> verify_enc_share H X sH gc e = VOk.
+  Proof. unfold dec_share. destruct (verify_enc_share H X sH gc e); congruence. Qed.
+
+  Lemma dec_share_inl (H X sH x gc : F) e v b :
+    dec_share Hc H X sH x gc e v = inl b -> verdict_ok (verify_enc_share H X sH gc e) = false.
+  Proof. unfold dec_share. destruct (verify_enc_share H X sH gc e); try congruence; reflexivity. Qed.
+
+  Lemma dsb_go_spec (H x : F) : forall (rows : list dsb_row) vs acc out,
+    dec_share_batch_go Hc H x rows vs acc = Some out ->
+    fst (fst out) = fst (fst acc) ++ map fst (filter (dsb_ok H) rows) /\
+    snd (fst out) = snd (fst acc) ++ map (fun r => snd (snd (snd r))) (filter (dsb_ok H) rows) /\
+    exists ds, snd out = snd acc ++ ds /\ Forall2 (dsb_dec H x) (filter (dsb_ok H) rows) ds.
+  Proof.
+    induction rows as [|r rows IH]; intros vs acc out E.
+    - cbn in E. injection E as <-. cbn. rewrite !app_nil_r. repeat split. exists []. rewrite app_nil_r. split; [reflexivity|constructor].
+    - cbn [dec_share_batch_go] in E.
+      destruct (dec_share Hc H (fst r) (fst (snd r)) x (fst (snd (snd r))) (snd (snd (snd r))) (hd zzero vs)) as [b|d] eqn:D.
+      + apply dec_share_inl in D. assert (K : dsb_ok H r = false) by exact D.
+        cbn [filter]. rewrite K. apply (IH _ _ _ E).
+      + destruct vs as [|v vs']; [discriminate|].
+        pose proof (dec_share_inr _ _ _ _ _ _ _ _ D) as V.
+        assert (K : dsb_ok H r = true) by (unfold dsb_ok; rewrite V; reflexivity).
+        cbn [filter]. rewrite K. cbn [map].
+        destruct (IH _ _ _ E) as [A [B [ds [C F2]]]]. cbn [fst snd] in A, B, C.
+        rewrite A, B. rewrite <- !app_assoc. cbn [app]. repeat split.
+        exists (d :: ds). rewrite C, <- app_assoc. split; [reflexivity|].
+        constructor; [|exact F2]. exists v. exact D.
+  Qed.
+
+  (* DecShareBatch returns the keys and encrypted shares of exactly the
+     positions whose share verifies, in order, with their decryptions *)
+  Theorem dec_share_batch_spec (H : F) (X sH : list F) (x : F) (gcs : list F) (enc : list (pvshare q)) vs K E D :
+    dec_share_batch Hc H X sH x gcs enc vs = Some (ROk (K, E, D)) ->
+    let kept := filter (dsb_ok H) (combine X (combine sH (combine gcs enc))) in
+    K = map fst kept /\ E = map (fun r => snd (snd (snd r))) kept /\ Forall2 (dsb_dec H x) kept D.
+  Proof.
+    unfold dec_share_batch. destruct (same_len3 X sH enc); cbn [negb]; [|discriminate].
+    destruct (Nat.ltb (length gcs) (length enc)); [discriminate|].
+    destruct (dec_share_batch_go Hc H x (combine X (combine sH (combine gcs enc))) vs ([], [], [])) as [[[K' E'] D']|] eqn:G; [|discriminate].
+    intros Eq. injection Eq as <- <- <-. cbv zeta.
+    destruct (dsb_go_spec H x _ _ _ _ G) as [A [B [ds [C F2]]]]. cbn [fst snd app] in A, B, C.
+    subst. repeat split; assumption.
+  Qed.
+
+  (* ... and each returned decryption verifies when the positions are addressed to the key pair (x, xG) *)
+  Corollary dec_share_batch_verifies (H x : F) (r : dsb_row) (d : pvshare q) :
+    x <> zzero -> fst r = smul x pbase -> dsb_ok H r = true -> dsb_dec H x r d ->
+    verify_dec_share Hc pbase (fst r) (snd (snd (snd r))) d = VOk.
+  Proof.
+    intros Hx EX Ok [v Dv]. unfold dsb_ok in Ok.
+    assert (V : verify_enc_share H (fst r) (fst (snd r)) (fst (snd (snd r))) (snd (snd (snd r))) = VOk)
+      by (destruct (verify_enc_share H (fst r) (fst (snd r)) (fst (snd (snd r))) (snd (snd (snd r)))); try discriminate; reflexivity).
+    destruct (pvss_dec_honest H (fst r) (fst (snd r)) x (fst (snd (snd r))) (snd (snd (snd r))) v Hx EX V) as [d' [E' [_ [_ Vd]]]].
+    rewrite Dv in E'. injection E' as <-. exact Vd.
+  Qed.
+
 End PvssProofs.
